@@ -188,7 +188,7 @@ def k_report(ctx, p):
     ts = bytes.fromhex(p["ts"])
     want = P.tm(p["apid"], count, 1, sub, 0, 0, 0, ts, src)
     ok, rep = attempt(_mk_report, p)
-    if not ctx.check("report.construct", ok, "raised", f"sub={sub}/" + (exc_sig(rep) if not ok else ""), case, error=repr(rep)):
+    if not ctx.check("report.construct", ok and rep is not None, "raised" if not ok else "helper_returned_no_report", f"sub={sub}/" + (exc_sig(rep) if not ok else p["route"]), case, error=repr(rep)):
         return
     ok, raw = attempt(rep.pack)
     if not ctx.check("report.pack", ok and bytes(raw) == want, "octets", f"sub={sub}/" + ("source_data" if ok and bytes(raw)[:13 + len(ts)] == want[:13 + len(ts)] else "header"), case,
